@@ -44,6 +44,14 @@ pub struct Op {
     /// position of the set_output_* call among the add_* calls (None = after all of them)
     #[serde(default)]
     pub out_pos: Option<usize>,
+    /// the builder is created for the *other* backend, the output mode is set first, then `with_backend`
+    /// switches to `backend` before the sources are added
+    #[serde(default)]
+    pub swap_backend: bool,
+    /// the output mode is set first while `out` does not exist; `out` is created as a directory before the
+    /// sources are added (what counts is the destination as it is when compile() runs)
+    #[serde(default)]
+    pub late_dir: bool,
 }
 
 pub fn child_main(json: &str) {
@@ -115,7 +123,43 @@ pub fn child_main(json: &str) {
             _ => panic!("no sources"),
         }
     }
-    let r = guarded(|| if op.backend == "ts" { run::<TypescriptBackend>(&op) } else { run::<RasnBackend>(&op) });
+    // the output mode given before anything else, then (a) the backend exchanged, (b) the destination created as a directory
+    fn run_first<B0: Backend, B: Backend>(op: &Op) -> Result<Vec<CompilerError>, CompilerError> {
+        let mode = match op.mode.as_str() {
+            "stdout" => OutputMode::Stdout,
+            "none" => OutputMode::NoOutput,
+            _ => OutputMode::SingleFile(PathBuf::from(&op.out)),
+        };
+        #[allow(deprecated)]
+        let c = if op.mode == "deprecated" { Compiler::<B0, _>::new().set_output_path(PathBuf::from(&op.out)) } else { Compiler::<B0, _>::new().set_output_mode(mode) };
+        let c = c.with_backend(B::default());
+        if op.late_dir {
+            std::fs::create_dir_all(&op.out).expect("late directory");
+        }
+        let mut c = match (op.literals.first(), op.paths.first()) {
+            (Some(l), _) => c.add_asn_literal(l.clone()),
+            (None, Some(p)) => c.add_asn_by_path(p.clone()),
+            _ => c.add_asn_sources_by_path(op.iter_paths.clone().into_iter()),
+        };
+        for l in op.literals.iter().skip(1) {
+            c = c.add_asn_literal(l.clone());
+        }
+        for p in op.paths.iter().skip(if op.literals.is_empty() { 1 } else { 0 }) {
+            c = c.add_asn_by_path(p.clone());
+        }
+        if !op.iter_paths.is_empty() && !(op.literals.is_empty() && op.paths.is_empty()) {
+            c = c.add_asn_sources_by_path(op.iter_paths.clone().into_iter());
+        }
+        c.compile()
+    }
+    let r = guarded(|| match (op.swap_backend, op.late_dir, op.backend == "ts") {
+        (true, _, true) => run_first::<RasnBackend, TypescriptBackend>(&op),
+        (true, _, false) => run_first::<TypescriptBackend, RasnBackend>(&op),
+        (false, true, true) => run_first::<TypescriptBackend, TypescriptBackend>(&op),
+        (false, true, false) => run_first::<RasnBackend, RasnBackend>(&op),
+        (false, false, true) => run::<TypescriptBackend>(&op),
+        (false, false, false) => run::<RasnBackend>(&op),
+    });
     match r {
         Ok(Ok(w)) => eprintln!("RESULT ok {}", w.len()),
         Ok(Err(e)) => {
@@ -430,6 +474,21 @@ impl Prop for C20 {
                 }
             }
         }
+        // the output mode given first, then the backend exchanged with `with_backend` (the file name inside a directory
+        // follows the backend that compiles), or the destination created as a directory only afterwards
+        for backend in ["rasn", "ts"] {
+            for input in ["ok", "warn", "err", "small"] {
+                for source in ["literal", "path", "mix"] {
+                    for mode in ["file", "dir", "dir-dotted", "deprecated", "stdout"] {
+                        out.push(Case { steps: vec![Step { input: input.into(), source: source.into() }], mode: mode.into(), dest: "absent".into(), backend: backend.into(), via: "lib-swap".into() });
+                    }
+                    for mode in ["late-dir", "late-dir-dotted"] {
+                        out.push(Case { steps: vec![Step { input: input.into(), source: source.into() }], mode: mode.into(), dest: "absent".into(), backend: backend.into(), via: "lib-late".into() });
+                        out.push(Case { steps: vec![Step { input: input.into(), source: source.into() }], mode: mode.into(), dest: "absent".into(), backend: backend.into(), via: "lib-swap-late".into() });
+                    }
+                }
+            }
+        }
         // formatter reachable: compile() must deliver what compile_to_string() returns in the same environment
         for backend in ["rasn", "ts"] {
             for input in ["ok", "warn"] {
@@ -506,6 +565,11 @@ impl Prop for C20 {
                 out_arg = outd.clone();
                 target_file = outd.join(format!("generated.{ext}"));
             }
+            "late-dir" | "late-dir-dotted" => {
+                // does not exist while the builder is put together; the child creates it before compile()
+                out_arg = outd.join(if c.mode == "late-dir" { "later" } else { "later.d" });
+                target_file = out_arg.join(format!("generated.{ext}"));
+            }
             _ => {
                 out_arg = outd.join("unused");
                 target_file = out_arg.clone();
@@ -575,7 +639,7 @@ impl Prop for C20 {
             };
             if fmt_env && exp_ok {
                 // with a formatter reachable the reference is what compile_to_string() returns in that very environment
-                let rop = Op { literals: lits.clone(), paths: vec![], iter_paths: vec![], mode: "to-string".into(), out: String::new(), backend: c.backend.clone(), out_pos: None };
+                let rop = Op { literals: lits.clone(), paths: vec![], iter_paths: vec![], mode: "to-string".into(), out: String::new(), backend: c.backend.clone(), out_pos: None, swap_backend: false, late_dir: false };
                 let exe = std::env::current_exe().unwrap();
                 match Command::new(exe).arg("c20op").arg(serde_json::to_string(&rop).unwrap()).env("CARGO_HOME", &cargo_home).current_dir(&inp).stdin(Stdio::null()).output() {
                     Ok(o) if String::from_utf8_lossy(&o.stderr).lines().any(|l| l.starts_with("RESULT ok")) => exp_text = String::from_utf8_lossy(&o.stdout).to_string(),
@@ -588,7 +652,7 @@ impl Prop for C20 {
             if c.via.starts_with("lib") {
                 // "lib@k": the output mode is set before the k-th source is added (type-state builder, any call order)
                 let out_pos = c.via.split_once('@').and_then(|(_, k)| k.parse::<usize>().ok());
-                let mut op = Op { literals: vec![], paths: vec![], iter_paths: vec![], mode: c.mode.clone(), out: out_arg.to_string_lossy().to_string(), backend: c.backend.clone(), out_pos };
+                let mut op = Op { literals: vec![], paths: vec![], iter_paths: vec![], mode: c.mode.clone(), out: out_arg.to_string_lossy().to_string(), backend: c.backend.clone(), out_pos, swap_backend: c.via.contains("swap"), late_dir: c.via.contains("late") };
                 match step.source.as_str() {
                     "literal" => op.literals = lits.clone(),
                     "path" => op.paths = paths.clone(),
@@ -671,7 +735,13 @@ impl Prop for C20 {
             if c.dest == "readonly-dir" {
                 chmod(&outd, 0o755);
             }
-            let after = snapshot(&outd);
+            let mut after = snapshot(&outd);
+            if c.via.contains("late") {
+                // the directory the child created on purpose before compile() is not a write of the compiler
+                if let Ok(rel) = out_arg.strip_prefix(&outd) {
+                    after.remove(&rel.to_string_lossy().to_string());
+                }
+            }
             if c.dest == "readonly-dir" && si + 1 < c.steps.len() {
                 chmod(&outd, 0o555);
             }
@@ -687,7 +757,7 @@ impl Prop for C20 {
             if exp_ok && unwritable && c.via.starts_with("lib") && !result_line.contains("Generator:IO") {
                 discs.push(Disc::new(format!("{kb}|kind=error-kind"), format!("unwritable destination must be reported as Err(Generator(IO))\n{ctx}")));
             }
-            let writes_file = matches!(c.mode.as_str(), "file" | "dir" | "deprecated" | "cli-default" | "file-noext" | "dir-dotted");
+            let writes_file = matches!(c.mode.as_str(), "file" | "dir" | "deprecated" | "cli-default" | "file-noext" | "dir-dotted" | "late-dir" | "late-dir-dotted");
             if should_succeed && writes_file {
                 // exactly the target file changed / appeared with exactly the expected text
                 let rel = target_file.strip_prefix(&outd).unwrap().to_string_lossy().to_string();
